@@ -153,6 +153,10 @@ def recursive_mapping(M):
 
     n_rows, n_cols = M.shape
 
+    # A single configuration (no qubit): the operator is the constant M[0, 0]
+    if n_rows == 1:
+        return {0: M[0, 0]}
+
     # Bottom of recursion: 2x2 matrix case
     if n_rows == 2:
         res = {0: 0.5*(M[0,0]+M[1,1]), 1: 0.5*(M[0,1]+M[1,0]), 2: 0.5*(M[0,0]-M[1,1]), 3: 0.5j*(M[0,1]-M[1,0])}
